@@ -6,8 +6,8 @@ from props import symgen as G
 
 class C09(PropBase):
     pid = "C09"
-    coq_dirs = ["Base", "C08", "C11", "C09"]
-    translators = []
+    coq_dirs = ["Base", "Gen", "C08", "C11", "C09"]
+    translators = ["symfile_loop.py"]
     bins = ["c09"]
     impl_timeout = 600
     rule = ("case = input bytes (run-length encoded) + reader schedule; inputs: grammar-generated files with every record kind, "
@@ -113,6 +113,7 @@ class C09(PropBase):
         # 10. known finding F-C09a: the over-long line is a group header with sub-lines
         for data in G.orphan_files(rng, 6 if quick else 40):
             add("orphan", data, rng.choice([[], ["65536*20"]]), tag="orphan")
+        self._dist = dist
         return cases, dist, False
 
     def impl_cmd(self, exe, profile):
@@ -150,6 +151,10 @@ class C09(PropBase):
     def nontrivial(self, case, ans):
         a = G.analyse(case)
         return len(a["line_lens"]) >= 3
+
+    def extra(self, ctx):
+        G.record_features(self, ctx)
+        return []
 
 
 PROP = C09()
